@@ -414,6 +414,11 @@ func (c *Cookie) ParseBytes(src []byte) error {
 					if err != nil {
 						return err
 					}
+					if maxAge == 0 {
+						// 'max-age=0' means delete now, which Cookie represents as
+						// maxAge<0 (0 is "no max-age attribute"), as net/http does.
+						maxAge = -1
+					}
 					c.maxAge = maxAge
 				}
 
